@@ -122,15 +122,33 @@ def run_history_cases(ctx, cases) -> None:
 
 
 # ------------------------------------------------------------------------------------------
-async def byte_case(ctx, version: str | None, chunks: list[bytes], eof: bool) -> None:
+async def byte_case(ctx, version: str | None, chunks: list[bytes], eof: bool, via_tcp: bool = False) -> None:
     """Bytes -> real StreamReader -> TCPTransport.read -> Gateway.listen."""
     from aiomysensors.gateway import Gateway
     from aiomysensors.transport.tcp import TCPTransport
 
-    case = {"kind": "bytes", "version": version, "chunks": [c.hex() for c in chunks], "eof": eof}
+    case = {"kind": "bytes", "version": version, "chunks": [c.hex() for c in chunks], "eof": eof, "via_tcp": via_tcp}
     transport = TCPTransport("127.0.0.1", 1)
     reader = asyncio.StreamReader(limit=2**16)
-    transport.reader = reader
+    server = None
+    if via_tcp or not (hasattr(transport, "reader") and hasattr(transport, "writer")):
+        # no public reader/writer seam (or asked to): go through a real loopback connection instead
+        async def handler(_r, w) -> None:
+            for chunk in chunks:
+                w.write(chunk)
+            if not eof:
+                w.write(b"1;255;0;0;17;2.0\n1;0;0;0;6;t\n" + PROBE.encode())
+            await w.drain()
+            w.write_eof()
+            await _r.read()
+            w.close()
+
+        server = await asyncio.start_server(handler, "127.0.0.1", 0)
+        transport = TCPTransport("127.0.0.1", server.sockets[0].getsockname()[1])
+        await transport.connect()
+        ctx.obs("byte-case-via-loopback")
+    else:
+        transport.reader = reader
     gateway = Gateway(transport)
     if version is not None:
         gateway.protocol_version = version
@@ -148,14 +166,15 @@ async def byte_case(ctx, version: str | None, chunks: list[bytes], eof: bool) ->
         async def wait_closed(self) -> None:
             pass
 
-    transport.writer = NullWriter()  # reactions (version queries ...) must not fail for lack of a peer
-    for chunk in chunks:
-        reader.feed_data(chunk)
-    if eof:
-        reader.feed_eof()
-    else:
-        reader.feed_data(b"1;255;0;0;17;2.0\n1;0;0;0;6;t\n" + PROBE.encode())
-        reader.feed_eof()
+    if server is None:
+        transport.writer = NullWriter()  # reactions (version queries ...) must not fail for lack of a peer
+        for chunk in chunks:
+            reader.feed_data(chunk)
+        if eof:
+            reader.feed_eof()
+        else:
+            reader.feed_data(b"1;255;0;0;17;2.0\n1;0;0;0;6;t\n" + PROBE.encode())
+            reader.feed_eof()
     errors = 0
     yields = 0
     last_yield = None
@@ -180,13 +199,21 @@ async def byte_case(ctx, version: str | None, chunks: list[bytes], eof: bool) ->
                                    f"{info.get('raised_in')}", case)
                 break
             if type(exc).__name__ in ("TransportReadError", "TransportFailedError", "TransportError"):
-                if reader.at_eof() or "LimitOverrun" in repr(exc.__cause__):
+                active_reader = getattr(transport, "reader", None) or reader
+                if active_reader.at_eof() or "LimitOverrun" in repr(exc.__cause__):
                     stalled += 1
                     if stalled > 2:
                         break
         finally:
             await iterator.aclose()
-    ctx.case(("bytes", version, tuple(chunks), eof), nontrivial=errors > 0, sample=case)
+    if server is not None:
+        try:
+            await transport.disconnect()
+        except Exception:  # noqa: BLE001  C17 judges disconnect
+            pass
+        server.close()
+        await server.wait_closed()
+    ctx.case(("bytes", version, tuple(chunks), eof, via_tcp), nontrivial=errors > 0, sample=case)
     ctx.obs("byte-level-yields", yields)
     if not eof and stalled == 0:
         ctx.clause("byte-level-probe")
@@ -282,7 +309,8 @@ def run_case(ctx, case: dict) -> None:
         ctx.case(("sched", repr(case["config"]), tuple(case["choices"])))
         return
     if kind == "bytes":
-        arun(byte_case(ctx, case["version"], [bytes.fromhex(c) for c in case["chunks"]], case["eof"]))
+        arun(byte_case(ctx, case["version"], [bytes.fromhex(c) for c in case["chunks"]], case["eof"],
+                       case.get("via_tcp", False)))
     elif kind == "mqtt":
         arun(mqtt_case(ctx, case["version"], [tuple(i) for i in case["items"]]))
     else:
@@ -308,7 +336,7 @@ def run(ctx) -> None:
                 data = data[: rng.randrange(len(data) + 1)]
             cut = sorted(rng.sample(range(len(data) + 1), min(len(data), rng.randint(0, 3))))
             chunks = [data[a:b] for a, b in zip([0, *cut], [*cut, len(data)])]
-            arun(byte_case(ctx, [None, *VERSIONS][i % 6], chunks, eof=rng.random() < 0.4))
+            arun(byte_case(ctx, [None, *VERSIONS][i % 6], chunks, eof=rng.random() < 0.4, via_tcp=(i % 6 == 5)))
         topics = ["in/1/0/1/0/0", "in/1/0/1/0", "in", "", "a/b/c/d/e/f/g/1/255/3/0/0", "in/x/y/z/w/v", "in/1/255/3/0/2",
                   "in/0/255/3/0/2", "in/1/255/3/0/22", "in//////", "in/1/0/1/0/0/extra", "in/256/0/1/0/0"]
         for i in range(ctx.pick(100, 3000) // ctx.shard_count):
